@@ -58,6 +58,7 @@ type CaptureSpec struct {
 	LateIDB    bool // second interface description placed just before its first packet
 	ISB        bool // interface statistics block at the end
 	NRB        bool // a name resolution block after the interface descriptions
+	SectionLen bool // the section header states the section length instead of -1 (report-only configuration)
 }
 
 func (s *CaptureSpec) IsPcapng() bool { return s.FileType >= FilePcapngLE }
@@ -83,7 +84,7 @@ func (s *CaptureSpec) Key() string {
 }
 
 // DrawCaptureSpec draws a capture flavour from the tape.
-func DrawCaptureSpec(c Chooser) *CaptureSpec {
+func DrawCaptureSpec(c Chooser, p Params) *CaptureSpec {
 	s := &CaptureSpec{}
 	s.FileType = c.Intn(NumFileTypes)
 	s.Links = []int{linkChoices[c.Intn(len(linkChoices))]}
@@ -101,6 +102,9 @@ func DrawCaptureSpec(c Chooser) *CaptureSpec {
 		s.IfOptions = chance(c, 1, 2)
 		s.ISB = chance(c, 1, 3)
 		s.NRB = chance(c, 1, 4)
+		if p.Wide {
+			s.SectionLen = chance(c, 1, 6)
+		}
 	}
 	return s
 }
@@ -269,6 +273,7 @@ func WriteCapture(w *World, s *CaptureSpec) []byte {
 			endOpt()
 		}
 	})
+	shbLen := len(e.b)
 	idb := func(i int) {
 		block(1, func() {
 			e.u16(uint16(s.Links[i]))
@@ -359,5 +364,13 @@ func WriteCapture(w *World, s *CaptureSpec) []byte {
 		})
 	}
 	w.Faults[FEthPad] += padded
+	if s.SectionLen {
+		// "length in octets of the following section, excluding the Section
+		// Header Block itself"; the field sits after type, length, byte order
+		// magic and the two version numbers
+		t := &enc{be: e.be}
+		t.u64(uint64(len(e.b) - shbLen))
+		copy(e.b[16:], t.b)
+	}
 	return e.b
 }
